@@ -92,6 +92,21 @@ Theorem C05_constraints_nearest :
 Proof. exact round_constraints_nearest. Qed.
 Print Assumptions C05_constraints_nearest.
 
+(* "the task template" is what was loaded LAST: the class cache between the template files and
+   the scheduler (Classes.UpdateClass / GetClass), for every history of loads and reloads of any
+   identifiers: GetClass returns the class written last under that identifier ... *)
+Theorem C05_class_cache_last_write : forall (ops : list (N * klass)) k,
+  cache_get k (cache_run ops) = last_written k ops.
+Proof. exact (@cache_last_write_wins klass). Qed.
+Print Assumptions C05_class_cache_last_write.
+
+(* ... so a reload under the same identifier always replaces the template, whatever the old and
+   the new version have in common (command, wants, ...) *)
+Theorem C05_class_cache_reload : forall (ops : list (N * klass)) k v,
+  cache_get k (cache_run (ops ++ [(k, v)])) = Some v.
+Proof. exact (@cache_reload klass). Qed.
+Print Assumptions C05_class_cache_reload.
+
 (* ------------------------------------------------------------------ resources *)
 
 (* a launched task has a known class, and the offer's cpu, memory and (for well-formed ranges)
